@@ -5,6 +5,7 @@ import ast
 
 from ..chains import chain_arms, effects
 from ..loader import AnalysisError, call_attr, call_name, dotted, unparse
+from . import c01
 from ..rulekit import arg_of, const_value, def_value, is_none_test, local_defs
 
 GC = "aiokafka.consumer.group_coordinator.GroupCoordinator"
@@ -488,6 +489,7 @@ def run(ctx):
     rule_join_complete(ctx)
     rule_join_sync(ctx)
     rule_error_tables(ctx)
+    c01.rule_errno_unique(ctx, "error-effects")
     rule_rejoin_reset(ctx)
     rule_heartbeat(ctx)
     rule_coordination_loop(ctx)
